@@ -261,6 +261,11 @@ def generate(run, module, cfg_text, name, fam=None, workers=None, timeout=900, c
 def replay(run, binary, fam, scenarios, name, ops=False, j=None, chunks=None, stall=60):
     """Replay scenarios through the real code. Returns the list of trace chunk files."""
     inp = run.path(name + ".scn.jsonl")
+    chunks = chunks or 1
+    if chunks > 1:
+        # the replayer cuts its input into contiguous chunks (one trace file, one TLC run each): deal the scenarios out
+        # so that every chunk gets its share of each generator's scenarios (the random ones take TLC much longer)
+        scenarios = [s for c in range(chunks) for s in scenarios[c::chunks]]
     with open(inp, "w") as f:
         for s in scenarios:
             f.write(json.dumps(s) + "\n")
